@@ -53,6 +53,8 @@ impl FencedString {
                 }),
                 char_starts: Vec::new(),
             }
+        } else if start >= self.char_starts.len() {
+            Self::from_str("")
         } else {
             let start_byte = self.char_starts[start];
             let end_byte = end.and_then(|e| self.char_starts.get(e)).cloned();
@@ -82,6 +84,8 @@ impl FencedString {
                 Some(end) if end < self.len() => &self.buffer[start..end],
                 _ => &self.buffer[start..],
             }
+        } else if start >= self.char_starts.len() {
+            ""
         } else {
             let start_byte = self.char_starts[start];
             let end_byte = end.and_then(|e| self.char_starts.get(e)).cloned();
